@@ -149,7 +149,11 @@ def _total_steps(case):
 
 def run_case(case):
     if case.get("sweep"):
-        total = _total_steps(case)
+        base = _run_once(case, [list(p) for p in case.get("preempt", [])])
+        if base["deadlock"] or base["livelock"] or base["timed_out"] or base["errors"]:
+            # already the run without any pre-emption fails: that is the outcome; sweeping it would take for ever
+            return {"sweep": [base], "total_steps": base["steps"], "runs": 1}
+        total = min(base["steps"], int(case.get("max_sweep_steps", 600)))
         k, mod = case["sweep"]
         n = len(case["threads"])
         distinct, runs = {}, 0
@@ -163,6 +167,8 @@ def run_case(case):
                                  sort_keys=True)
                 if key not in distinct:
                     distinct[key] = o
+            if len(distinct) >= 40:
+                break       # far more distinct outcomes than the correct code has: enough to judge
         return {"sweep": list(distinct.values()), "total_steps": total, "runs": runs}
     pre = case.get("preempt", [])
     if "preempt_frac" in case:
